@@ -12,6 +12,7 @@ import (
 	"math/rand"
 	"runtime"
 	"runtime/debug"
+	"strings"
 	"sync"
 	"sync/atomic"
 	"time"
@@ -24,7 +25,9 @@ import (
 
 const M = ringlab.M
 
-var points = []string{"join.requested", "join.neighbours", "stab.read", "stab.done", "fix.done", "join.finish.pred", "join.finish.self", "join.finish.succ"}
+var points = []string{"join.requested", "join.neighbours", "stab.read", "stab.done", "fix.done", "join.finish.pred", "join.finish.self", "join.finish.succ",
+	// the joiner's neighbours while they take the joiner in (partially repaired fingers)
+	"pred:stab.read", "pred:stab.done", "pred:fix.done"}
 
 type jcase struct {
 	Name  string `json:"name"`
@@ -58,7 +61,9 @@ func runCase(c jcase, rep *batch.Report) batch.CaseResult {
 	if c.NetV {
 		mode = ringlab.NetV
 	}
-	lab := ringlab.New(ringlab.Options{Mode: mode, Seed: c.Seed})
+	// fix-finger runs rarely in the background, so that the finger tables stay as the protocol
+	// steps left them while the probes run (the steps themselves repair fingers synchronously)
+	lab := ringlab.New(ringlab.Options{Mode: mode, Seed: c.Seed, FixFinger: 250 * time.Millisecond, Stabilize: 150 * time.Millisecond, PredecessorCheck: 150 * time.Millisecond})
 	defer lab.Close()
 	rng := rand.New(rand.NewSource(c.Seed))
 	used := map[uint64]bool{}
@@ -106,7 +111,7 @@ func runCase(c jcase, rep *batch.Report) batch.CaseResult {
 		members = append(members, m)
 	}
 	defer lab.StopAll()
-	if cv := lab.WaitConverged(int64(6*c.N+20), time.Minute, true); !cv.Converged {
+	if cv := lab.WaitConverged(int64(6*c.N+20), time.Minute, false); !cv.Converged {
 		res.Inconclusive = "setup ring did not stabilise: " + cv.Diff
 		return res
 	}
@@ -120,14 +125,58 @@ func runCase(c jcase, rep *batch.Report) batch.CaseResult {
 	var probes, errs int64
 	var viol []batch.Viol
 	var vmu sync.Mutex
-	lab.On(c.Point, func(point string, node uint64) {
-		if node != joiner.ID || !hit.CompareAndSwap(false, true) {
+	who, hookPoint := "joiner", c.Point
+	if i := strings.Index(c.Point, ":"); i > 0 {
+		who, hookPoint = c.Point[:i], c.Point[i+1:]
+	}
+	srt := sortU(append([]uint64{}, ids...))
+	succOfJoiner := ringlab.OwnerOf(srt, joiner.ID)
+	predOfJoiner := ringlab.ExpectFor(srt, succOfJoiner).Pred
+	var armed, passedSelf atomic.Bool
+	lab.On("join.finish.self", func(_ string, node uint64) {
+		if node == joiner.ID {
+			passedSelf.Store(true)
+		}
+	})
+	if who != "joiner" {
+		// neighbours are probed once the joiner has its neighbour pointers and is about to tell them
+		lab.On("join.finish.pred", func(_ string, node uint64) {
+			if node == joiner.ID {
+				armed.Store(true)
+			}
+		})
+	}
+	lab.On(hookPoint, func(point string, node uint64) {
+		switch who {
+		case "joiner":
+			if node != joiner.ID {
+				return
+			}
+		case "pred":
+			if node != predOfJoiner || !armed.Load() || !onStack(".FinishJoin(") {
+				return // only the round run by the joiner's advisory (not a periodic one racing it)
+			}
+		case "succ":
+			if node != succOfJoiner || !armed.Load() {
+				return
+			}
+		}
+		if !hit.CompareAndSwap(false, true) {
 			return
 		}
 		// the join is blocked here while the probes run in other goroutines
 		keys := []uint64{0, M - 1, joiner.ID, (joiner.ID + 1) % M, (joiner.ID + M - 1) % M, rng.Uint64() % M, rng.Uint64() % M, rng.Uint64() % M}
 		for _, id := range ids {
 			keys = append(keys, id, (id+1)%M, (id+M-1)%M)
+		}
+		// the range the joiner just split: (pred, joiner] and (joiner, succ]
+		span := (succOfJoiner + M - joiner.ID) % M
+		if span > 2 {
+			keys = append(keys, (joiner.ID+span/2)%M, (joiner.ID+1+rng.Uint64()%(span-1))%M)
+		}
+		span2 := (joiner.ID + M - predOfJoiner) % M
+		if span2 > 2 {
+			keys = append(keys, (predOfJoiner+span2/2)%M)
 		}
 		targets := []*ringlab.Member{joiner}
 		sorted := append([]uint64{}, ids...)
@@ -239,4 +288,10 @@ func main() {
 		return "crash:" + head
 	})
 	r.Finish()
+}
+
+func onStack(frag string) bool {
+	buf := make([]byte, 16<<10)
+	n := runtime.Stack(buf, false)
+	return strings.Contains(string(buf[:n]), frag)
 }
